@@ -299,7 +299,7 @@ def run_moved(case, ctx):
 def parts(tier):
     mx = 30 if tier == "quick" else 60
     classes = ["construct", "view", "write", "lifetime", "derive", "rename"]
-    extra = ["vec_tuple"] * 14 + ["slice", "slice", "slice", "copy", "mask", "sort", "math", "set_slice", "set_mask", "attr_assign", "attr_assign", "drop_tuple", "drop_tuple", "set_int", "set_int", "set_slice", "drop", "churn", "gc", "rshift", "vec_of_vecs", "attr_assign", "table_dupnames", "table_dupnames"]
+    extra = ["vec_tuple"] * 14 + ["slice", "slice", "slice", "copy", "mask", "sort", "math", "set_slice", "set_mask", "attr_assign", "attr_assign", "drop_tuple", "drop_tuple", "set_int", "set_int", "set_slice", "drop", "churn", "gc", "rshift", "vec_of_vecs", "attr_assign", "table_dupnames", "table_dupnames", "table_dict", "table_dict", "tset_cell"]
     return [Part("histories", run, strategy=lambda t: W.program(max_steps=mx, classes=classes, always=("construct", "write", "lifetime"), extra_ops=extra),
                  examples=(3000, 40000), shards=(12, 16), floors={"has_shared_pair": 0.12, "has_table_constructor": 0.5, "column_replaced_through_indexed_accessor": 0.005}),
             Part("results", run_results, strategy=lambda t: results_case(t), examples=(3000, 80000), shards=(4, 16)),
